@@ -2148,5 +2148,83 @@ theorem xexec_spec (m : Matrix α) (h : m.Inv) (x : XOp α) :
           simp [hr, hk, this, hp, h]
     · simp [hr, h]
 
+/-! ## 11. row / column / diagonal getters -/
+
+theorem collectUnchecked_ok (m : Matrix α) (h : m.data.length = m.rows * m.columns) :
+    ∀ (L : List (Nat × Nat)), (∀ p ∈ L, p.1 < m.rows ∧ p.2 < m.columns) →
+      m.collectUnchecked L = .ok (L.filterMap fun p => m.tryGet p.1 p.2) := by
+  intro L
+  induction L with
+  | nil => intro _; rfl
+  | cons p L ih =>
+    intro hL
+    obtain ⟨r, c⟩ := p
+    have hp := hL (r, c) List.mem_cons_self
+    obtain ⟨x, hx⟩ := tryGet_isSome m h hp.1 hp.2
+    have hx' : m.data[m.getIndex r c]? = some x := by
+      simpa [tryGet, hp.1, hp.2] using hx
+    simp only [collectUnchecked, hx', ih (fun q hq => hL q (List.mem_cons_of_mem _ hq))]
+    rw [List.filterMap_cons_some (f := fun p : Nat × Nat => m.tryGet p.1 p.2) (a := (r, c)) (b := x) hx]
+
+/-- `column_iter` agrees with the list of rows -/
+theorem columnIter_spec (m : Matrix α) (h : m.Inv) (c : Nat) :
+    m.columnIter c = Rows.columnAt m.toRows c := by
+  unfold columnIter Rows.columnAt
+  rw [ncols_toRows m h]
+  by_cases hc : c < m.columns
+  · have hr : 0 < m.rows := h.2.1
+    rw [if_pos ⟨hr, hc⟩, if_pos hc, collectUnchecked_ok m h.1]
+    · rw [List.filterMap_map, column_toRows]
+      rfl
+    · intro p hp
+      simp only [List.mem_map, List.mem_range] at hp
+      obtain ⟨r, hr', rfl⟩ := hp
+      exact ⟨hr', hc⟩
+  · rw [if_neg (fun hh => hc hh.2), if_neg hc]
+
+/-- `row_iter` agrees with the list of rows -/
+theorem rowIter_spec (m : Matrix α) (h : m.Inv) (r : Nat) :
+    m.rowIter r = Rows.rowAt m.toRows r := by
+  unfold rowIter Rows.rowAt
+  by_cases hr : r < m.rows
+  · have hc : 0 < m.columns := h.2.2
+    have hlen : r < m.toRows.length := by rw [length_toRows]; exact hr
+    rw [if_pos ⟨hr, hc⟩, collectUnchecked_ok m h.1, List.getElem?_eq_getElem hlen]
+    · simp only [List.filterMap_map, Outcome.ok.injEq]
+      apply List.ext_getElem?
+      intro j
+      have hcell := cell_toRows m r j
+      unfold Rows.cell at hcell
+      rw [List.getElem?_eq_getElem hlen] at hcell
+      simp only [Option.bind_some] at hcell
+      rw [hcell, getElem?_filterMap_all_some]
+      · by_cases hj : j < m.columns
+        · simp [List.getElem?_range hj, Function.comp]
+        · rw [List.getElem?_eq_none (by simp; omega)]
+          simp [tryGet, hj]
+      · intro c hc'
+        exact tryGet_isSome m h.1 hr (List.mem_range.mp hc')
+    · intro p hp
+      simp only [List.mem_map, List.mem_range] at hp
+      obtain ⟨c, hc', rfl⟩ := hp
+      exact ⟨hr, hc'⟩
+  · rw [if_neg (fun hh => hr hh.1), List.getElem?_eq_none (by rw [length_toRows]; omega)]
+
+/-- `diagonal_iter` agrees with the list of rows (and never panics) -/
+theorem diagonalIter_spec (m : Matrix α) (h : m.Inv) :
+    m.diagonalIter = .ok (Rows.diagonal m.toRows) := by
+  unfold diagonalIter Rows.diagonal
+  rw [collectUnchecked_ok m h.1, ncols_toRows m h, show Rows.nrows m.toRows = m.rows from length_toRows m]
+  · rw [List.filterMap_map]
+    congr 1
+    apply filterMap_congr'
+    intro i _
+    simp only [Function.comp]
+    exact (cell_toRows m i i).symm
+  · intro p hp
+    simp only [List.mem_map, List.mem_range] at hp
+    obtain ⟨i, hi, rfl⟩ := hp
+    exact ⟨by omega, by omega⟩
+
 end Matrix
 end EasyMl
